@@ -32,7 +32,7 @@ func VerifC13_Open() {
 	vrt.Reach("opened")
 	vrt.Assert(vrt.OpenFDs() == 1, "C13.held exactly one descriptor per handle")
 	vrt.Assert(vrt.IsLocked(path), "C13.held a default handle holds the exclusive lock")
-	vrt.Assert(vrt.LockedBeforeFirstRead(), "C13.held the lock was taken before the first read of the file")
+	vrt.Assert(vrt.LockedBeforeFirstRead(), "C13.held [static] the lock was taken before the first read of the file")
 	vrt.Assert(w.Close() == nil, "C13.life Close succeeds")
 	vrt.Assert(vrt.OpenFDs() == 0, "C13.life Close closes the descriptor")
 	vrt.Assert(!vrt.IsLocked(path), "C13.life Close releases the lock")
